@@ -46,7 +46,7 @@ type Method struct {
 // CtWorld is the chain of the call-tree vectors.
 type CtWorld struct {
 	C          *chain.Chain
-	Fwd        [4]map[string]*chain.Acct // level -> kind -> forwarding contract (installed at a keyed address)
+	Fwd        []map[string]*chain.Acct // level -> kind -> forwarding contract (installed at a keyed address)
 	Sender     *chain.Acct
 	Owner      *chain.Acct // an EOA that approved every forwarder on the ERC-20 precompile
 	Recv       common.Address
@@ -109,8 +109,8 @@ func ListMethods(c *chain.Chain) []Method {
 // staking precompile through the real deployment message (3 decimals, so that the reward threshold of
 // withdrawRewards is 1 unit), 16 funded forwarding contracts at keyed addresses, each with a delegation
 // to validator 0 (native MsgDelegate signed by its key) and an ERC-20 allowance from Owner.
-func NewCtWorld() *CtWorld {
-	w := &CtWorld{}
+func NewCtWorld(depth int) *CtWorld {
+	w := &CtWorld{Fwd: make([]map[string]*chain.Acct, depth)}
 	o := chain.DefaultOpts()
 	o.NAccts = 4
 	o.NVals = 2
@@ -121,7 +121,7 @@ func NewCtWorld() *CtWorld {
 	w.Sender = chain.NewAcct("ct-sender")
 	o.ExtraAccts = append(o.ExtraAccts, authtypes.NewBaseAccount(w.Sender.Acc(), nil, 0, 0))
 	o.ExtraBals = append(o.ExtraBals, banktypes.Balance{Address: w.Sender.Acc().String(), Coins: sdk.NewCoins(sdk.NewInt64Coin(chain.Denom, 4_000_000_000_000_000_000))})
-	for lvl := 0; lvl < 4; lvl++ {
+	for lvl := 0; lvl < depth; lvl++ {
 		w.Fwd[lvl] = map[string]*chain.Acct{}
 		for _, k := range Kinds {
 			a := chain.NewAcct(fmt.Sprintf("ct-fwd-%d-%s", lvl, k))
@@ -156,7 +156,7 @@ func NewCtWorld() *CtWorld {
 		must("validator address", err == nil, err)
 		w.ValStr[i] = s
 	}
-	for lvl := 0; lvl < 4; lvl++ {
+	for lvl := 0; lvl < depth; lvl++ {
 		for _, k := range Kinds {
 			f := w.Fwd[lvl][k]
 			res, adm, err := SendCosmos(c, f, 400000, stakingtypes.NewMsgDelegate(f.Acc().String(), w.ValStr[0], sdk.NewCoin(chain.Denom, sdkmath.NewInt(100_000))))
@@ -424,7 +424,7 @@ func (w *CtWorld) RunVector(v Vector, pre map[string]string) (ev trace.M, post m
 		st = 1
 	}
 	ev = trace.M{"ev": "Vector", "id": v.ID, "path": v.Path, "cpc": v.Cpc, "method": v.Method, "caller": x.Name,
-		"status": st, "changed": len(d) > 0, "nchanged": len(d), "nlogs": len(r.Logs), "vmError": trunc(r.VmError, 80), "sample": append([]string{}, sample...)}
+		"status": st, "changed": len(d) > 0, "nchanged": len(d), "nlogs": len(r.Logs), "gasUsed": r.GasUsed, "evmGas": r.EvmGas, "vmError": trunc(r.VmError, 80), "sample": append([]string{}, sample...)}
 	return ev, post
 }
 
@@ -456,7 +456,13 @@ func RunCallTree(out *trace.W, vectorsPath string, only string, shard, shards in
 		}
 		vs = append(vs, v)
 	}
-	w := NewCtWorld()
+	depth := 1
+	for _, v := range vs {
+		if len(v.Path) > depth {
+			depth = len(v.Path)
+		}
+	}
+	w := NewCtWorld(depth)
 	if shard == 0 {
 		out.Emit(trace.M{"ev": "Methods", "methods": w.Methods})
 	}
